@@ -14,15 +14,23 @@
 (* with the lossless reader.                                               *)
 (***************************************************************************)
 EXTENDS Naturals, Sequences, FiniteSets, TLC, Json, TypedTables
+CONSTANTS NSamples,   \* value-sample selector: every field takes its vs-th canonical sample value (fields with fewer keep their last)
+          Deep        \* TRUE: also every PAIR of optional fields absent, and every single optional field present alone
 
 All(r) == 1..Roles[r].nf
 \* dropping the field that DISTINGUISHES a role does not make the paragraph invalid, it makes it a paragraph of
 \* another role (a Files paragraph without Files is a licence paragraph): not generated as an invalid variant
 Reclassifies(r) == IF r = "copyright_files" THEN {1} ELSE {}
-Variants(r) == { [role |-> r, present |-> All(r), bad |-> FALSE],
+\* (a paragraph without any field is no paragraph at all: such variants are not generated)
+Variants(r) == LET V == { [role |-> r, present |-> All(r), bad |-> FALSE],
                  [role |-> r, present |-> IF Roles[r].mand = {} THEN {1} ELSE Roles[r].mand, bad |-> FALSE] }
                \cup { [role |-> r, present |-> All(r) \ {i}, bad |-> FALSE] : i \in All(r) \ Roles[r].mand }
                \cup { [role |-> r, present |-> All(r) \ {m}, bad |-> TRUE] : m \in Roles[r].mand \ Reclassifies(r) }
+               \cup (IF Deep THEN { [role |-> r, present |-> All(r) \ {i, j}, bad |-> FALSE] : i, j \in All(r) \ Roles[r].mand }
+                                 \cup { [role |-> r, present |-> Roles[r].mand \cup {i}, bad |-> FALSE] : i \in All(r) \ Roles[r].mand }
+                                 \cup { [role |-> r, present |-> (All(r) \ {m}) \ {i}, bad |-> TRUE] : m \in Roles[r].mand \ Reclassifies(r), i \in All(r) \ Roles[r].mand }
+                           ELSE {})
+               IN { v \in V : v.present # {} }
 Full(r) == [role |-> r, present |-> All(r), bad |-> FALSE]
 Neither == [role |-> "neither", present |-> {}, bad |-> TRUE]
 
@@ -51,10 +59,10 @@ VARIABLE case
 Next == UNCHANGED case
 Para(r) == IF r = "neither" THEN Neither ELSE Full(r)
 \* one designated paragraph takes every variant, the others are complete
-Init == \E k \in DOMAIN Shapes : \E sh \in Shapes[k] : \E d \in 1..Len(sh.s) : \E cm \in BOOLEAN, bl \in 1..2 :
+Init == \E k \in DOMAIN Shapes : \E sh \in Shapes[k] : \E d \in 1..Len(sh.s) : \E cm \in BOOLEAN, bl \in 1..2, vs \in 1..NSamples :
           \E v \in (IF sh.s[d] = "neither" THEN {Neither} ELSE Variants(sh.s[d])) :
             LET ps == [i \in 1..Len(sh.s) |-> IF i = d THEN v ELSE Para(sh.s[i])] IN
-            case = [kind |-> k, paras |-> ps, comments |-> cm, blanks |-> bl,
+            case = [kind |-> k, paras |-> ps, comments |-> cm, blanks |-> bl, vs |-> vs,
                     ok |-> sh.ok /\ \A i \in 1..Len(ps) : ~ps[i].bad]
 \* the verdict follows the rules: a document is accepted iff its shape is allowed and no mandatory field is missing
 Rules == case.ok <=> /\ \E sh \in Shapes[case.kind] : sh.ok /\ sh.s = [i \in 1..Len(case.paras) |-> case.paras[i].role]
